@@ -15,6 +15,7 @@ import AcVerif.Packed.Model
 import AcVerif.Pre.Builder
 import AcVerif.Cost
 import AcVerif.Compiler
+import AcVerif.DfaModel
 /-!
 # Line-protocol driver: the model's answer to each request
 -/
@@ -471,6 +472,32 @@ def certDiag {σ : Type} [DecidableEq σ] (A : Aut σ UInt8) (B : Aut Nat UInt8)
       | _ => none
     bad.getD "unknown"
 
+/-- untrusted diagnosis of a failed `contractOk`: the first dumped state that violates a local
+contract clause, with a byte string that reaches it (a concrete witness for the replay file) -/
+def contractDiag (T : Table) : String :=
+  let B := T.toAut
+  let n := T.states.size
+  let bad := (List.range n).findSome? fun q =>
+    match T.states[q]? with
+    | none => none
+    | some st =>
+      let why : Option String :=
+        if (st.dead || st.isMatch) && !st.special then some "dead-or-match-state-not-special"
+        else if st.special && !(st.dead || st.isMatch || st.isStart) then some "special-state-neither-dead-match-nor-start"
+        else if st.dead && st.isMatch then some "dead-state-is-match"
+        else if st.isMatch != !st.pats.isEmpty then some "match-flag-vs-empty-match-list"
+        else if st.pats.any (fun p => decide (p ≥ T.npat)) then some "invalid-pattern-id"
+        else if st.dead && !(st.tNo.all (fun t => T.flag (·.dead) t) && st.tYes.all (fun t => T.flag (·.dead) t)) then some "dead-state-not-absorbing"
+        else if !(st.tNo.all (fun t => decide (t < n)) && st.tYes.all (fun t => decide (t < n))) then some "successor-not-a-state"
+        else none
+      why.map fun w =>
+        let viaNo := pathTo B n false q
+        let viaYes := pathTo B n true q
+        let reachNo := T.startNo == some q || !viaNo.isEmpty
+        let path := if reachNo then s!"anch=0 path={hex viaNo}" else s!"anch=1 path={hex viaYes}"
+        s!"contract-violation:{w} state={q} {path}"
+  bad.getD "contract-violation:table-shape"
+
 def showSt : St UInt8 → String
   | .dead => "DEAD"
   | .at u => "at:" ++ hex u
@@ -527,7 +554,8 @@ def answerCert (r : Req) : String :=
         else
           let diags := res.filterMap fun (anch, ok, d) =>
             if ok then none else some s!"anch={if anch then 1 else 0}:{d}"
-          s!"cert-fail contract={if contract then 1 else 0} meta={if meta_ok then 1 else 0} fails={if failsOk then 1 else 0} " ++ " | ".intercalate diags
+          s!"cert-fail contract={if contract then 1 else 0} meta={if meta_ok then 1 else 0} fails={if failsOk then 1 else 0} " ++
+            (if contract then "" else contractDiag T ++ " | ") ++ " | ".intercalate diags
 
 /-- `certl1c`: certificate of a dumped noncontiguous NFA against the transcription of its
 compiler (L1c): whole match lists, both anchorings, and the number of failure links followed by
@@ -561,6 +589,37 @@ def answerCertL1c (r : Req) : String :=
           if ok then none else some s!"anch={if anch then 1 else 0}:{d}"
         s!"cert-fail contract={if T.contractOk then 1 else 0} fails={if failsOk then 1 else 0} " ++ " | ".intercalate diags
   | _, _ => "bad-request:certl1c"
+
+/-- `certdfa`: certificate of a dumped DFA against the transcription of the DFA builder
+(L1d) applied to the transcribed compiler's NFA: whole match lists, every supported anchoring. -/
+def answerCertDfa (r : Req) : String :=
+  match MatchKind.parse (r.getD "mk" "std"), r.list? "pats" with
+  | some k, some P =>
+    match parseTable r k with
+    | none => "bad-request:dump"
+    | some T =>
+      let B := T.toAut
+      let n := T.states.size
+      let sk : StartKind := match T.startNo, T.startYes with
+        | some _, some _ => .both
+        | some _, none => .unanchored
+        | none, some _ => .anchored
+        | none, none => .both
+      let N := CNfa.compile k (r.flag "fold") P
+      let D := buildDfa N sk (r.flag "bc")
+      let A := D.toAut k P T.hasPre
+      let res := [false, true].map fun anch =>
+        if (A.start anch).isNone && (B.start anch).isNone then (anch, true, "unsupported-by-both")
+        else
+          let f := buildSim A B n anch
+          let ok := certOk A B n anch false f allBytes
+          (anch, ok, if ok then "ok" else certDiag A B n anch false f toString)
+      if res.all (·.2.1) then s!"cert-ok states={n} l1d_states={D.rows.size}"
+      else
+        let diags := res.filterMap fun (anch, ok, d) =>
+          if ok then none else some s!"anch={if anch then 1 else 0}:{d}"
+        s!"cert-fail " ++ " | ".intercalate diags
+  | _, _ => "bad-request:certdfa"
 
 /-- `certpair`: certificate of one dump (prefix `b_`) against another (prefix `a_`),
 full match lists, both anchorings. -/
@@ -601,7 +660,8 @@ def answerCertPair (r : Req) : String :=
       else
         let diags := res.filterMap fun (anch, ok, d) =>
           if ok then none else some s!"anch={if anch then 1 else 0}:{d}"
-        s!"cert-fail contract={if TB.contractOk then 1 else 0} fails={if failsOk then 1 else 0} " ++ " | ".intercalate diags
+        s!"cert-fail contract={if TB.contractOk then 1 else 0} fails={if failsOk then 1 else 0} " ++
+          (if TB.contractOk then "" else contractDiag TB ++ " | ") ++ " | ".intercalate diags
     | _, _ => "bad-request:dump"
 
 /-- all response lines for one request line -/
@@ -614,6 +674,7 @@ def respond (lineNo : Nat) (line : String) : List String :=
     | "certl1" => [s!"{lineNo} - {answerCert r}"]
     | "certpair" => [s!"{lineNo} - {answerCertPair r}"]
     | "certl1c" => [s!"{lineNo} - {answerCertL1c r}"]
+    | "certdfa" => [s!"{lineNo} - {answerCertDfa r}"]
     | "packed" => ((r.getD "pcfg" "default").splitOn ";").map fun v => s!"{lineNo} {v} {answerPacked r v}"
     | "pre" => (cfgsOf r).map fun c => s!"{lineNo} {c.name} {answerPre r c}"
     | "meta" => (cfgsOf r).map fun c => s!"{lineNo} {c.name} {answerMeta r c}"
